@@ -121,16 +121,24 @@ def ifft(data, shift=True):
 def transform_metadata(a, inverse):
     dims=list(a.dims)
 
+    attrs = dict(a.attrs)
     if not inverse:
         coords = ft_coords(a.coords)
         dims[dims.index('x')]='m'
         dims[dims.index('y')]='n'
+        # the frequency axes do not say where the image began: remember it
+        attrs['_image_origin'] = [float(a.coords['x'].values[0]),
+                                  float(a.coords['y'].values[0])]
     else:
         dims[dims.index('m')]='x'
         dims[dims.index('n')]='y'
         coords = ift_coords(a.coords)
+        origin = attrs.pop('_image_origin', None)
+        if origin is not None:
+            coords['x'] = coords['x'] + origin[0]
+            coords['y'] = coords['y'] + origin[1]
 
-    return {'dims': dims, 'coords': coords, 'attrs': a.attrs, 'name': a.name}
+    return {'dims': dims, 'coords': coords, 'attrs': attrs, 'name': a.name}
 
 
 def get_spacing(c):
